@@ -5,12 +5,17 @@ Line-protocol driver for C10 (see harness/cmd/vh/c10.go for the grammar).
       D <t0:8 ints> <t1:8 ints> <hour1900> I <date1904> <unix seconds of t0>
       L <n> { <code> <ok> <era> <ap> <m3> <m4> <m5> <wdA> <wd> <m3'> <m4'> <m5'> <wdA'> <wd'> }
       S <n> { <type> <k> { <ttype> <tvalue> <p> { <ptype> <pvalue> <langok> } } }
+      O <hasLongDate> [<n> sections] <hasLongTime> [<n> sections]      Options patterns, tokenised by nfp
     -> <ok hex | PANIC | UNMODELLED> C=<conf> X=<exact fixed rendering | -> T=<fields = C19 civilOf of the instant> A=<AM/PM patterns in the regenerated table>
   comma <text>      -> printCommaSep
+  bcode <culture> <short> <longtime> <id>   -> getBuiltInNumFmtCode (hook): ok <code> | none
+  glue <styled> <id> <culture> <short> <longtime> <code|none> fmt …  GetCellValue through NewStyle{NumFmt:id}:
+        the fmt fields for the code the harness expects + R=<formattedValue's resolution in the model equals it>
 All strings hex ("-" = empty).
 -/
 import XlModel.NumFmtFloat
 import XlModel.NumFmtDate
+import XlModel.NumFmtGlue
 import XlModel.Drv.Util
 namespace XlModel.Drv.C10
 open XlModel XlModel.NumFmt XlModel.Drv
@@ -148,12 +153,23 @@ def fmtOp : P String := do
   lit "S"
   let ns ← nat
   let secs ← many sec ns
+  lit "O"
+  let optSecs : P (Option (List Sec)) := do
+    let has ← flag
+    if has then
+      let k ← nat
+      let ss ← many sec k
+      pure (some ss)
+    else pure none
+  let ld ← optSecs
+  let lt ← optSecs
   let n := F64.numIn isNum prec pf absS big0 big1
   let look (sel : LocRow → Locale) (code : Str) : Locale :=
     match rows.find? (fun r => r.code = code) with
     | some r => sel r
     | none => noLocale
-  let d : DateIn := { t0 := t0, t1 := t1, hour1900 := h1900, loc0 := look (·.l0), loc1 := look (·.l1) }
+  let d0 : DateIn := { t0 := t0, t1 := t1, hour1900 := h1900, loc0 := look (·.l0), loc1 := look (·.l1) }
+  let d := applyOptions d0 ld lt value cellNumeric n
   let r := match format secs value cellNumeric n d with
     | .ok s => "ok " ++ hexS s
     | .panic => "PANIC"
@@ -166,6 +182,19 @@ def step (w : List String) : String :=
     match fmtOp rest with
     | some (s, []) => s
     | _ => "bad-op"
+  | ["bcode", cu, sh, lt, id] =>
+    match cu.toNat?, unhexS sh, unhexS lt, id.toNat? with
+    | some cu, some sh, some lt, some id =>
+      match Glue.builtInCode { culture := cu, short := sh, longTime := lt } id with
+      | some c => "ok " ++ hexS c
+      | none => "none"
+    | _, _, _, _ => "bad-op"
+  | "glue" :: styled :: id :: cu :: sh :: lt :: code :: "fmt" :: rest =>
+    match id.toNat?, cu.toNat?, unhexS sh, unhexS lt, (if code = "none" then some none else (unhexS code).map some), fmtOp rest with
+    | some id, some cu, some sh, some lt, some code, some (r, []) =>
+      let got := Glue.resolve [] (if styled = "1" then 1 else 0) id { culture := cu, short := sh, longTime := lt }
+      r ++ " R=" ++ b01 (decide (got = code))
+    | _, _, _, _, _, _ => "bad-op"
   | ["comma", h] =>
     match unhexS h with
     | some s => "ok " ++ hexS (printCommaSep s)
